@@ -1,4 +1,6 @@
 # SPDX-License-Identifier: MIT
+import math
+import struct
 import warnings
 from dataclasses import dataclass, field
 from typing import TYPE_CHECKING, Dict, List, Optional, Tuple
@@ -247,7 +249,18 @@ class EncodeState:
                 odxraise(f"Illegal bit length for a float64 object ({bit_length})")
                 bit_length = 64
 
-            raw_value = float(internal_value)
+            try:
+                raw_value = float(internal_value)
+                if base_data_type == DataType.A_FLOAT32 and math.isfinite(raw_value):
+                    # finite values which are too large for the
+                    # IEEE-754 single precision format must not be
+                    # silently converted to infinity
+                    struct.pack(">f", raw_value)
+            except OverflowError:
+                odxraise(
+                    f"The value '{internal_value!r}' cannot be represented using "
+                    f"a {bit_length} bit floating point number", EncodeError)
+                raw_value = math.inf if internal_value > 0 else -math.inf
 
         # If the bit length is zero, encode an empty value
         if bit_length == 0:
